@@ -6,7 +6,9 @@ D1 fallible constructors/conversions: decision tables over the orderings of the 
 D2 projection tables for every accessor and conversion (stored bound or documented stand-in).
 D3 round trips by composing summaries.
 D4 kind predicates / is_degenerate / width.
-D5 Clone is the identity; Hash writes an injective tag followed by exactly the bounds."""
+D5 Clone is the identity; Hash writes an injective tag followed by exactly the bounds.
+D6 == holds exactly for same-kind intervals with equal bounds (decision table over variant pairs x weak orders):
+   different kinds with the same bound are unequal, and Hash (D5) agrees with ==."""
 import itertools
 
 from .. import terms as T
@@ -355,9 +357,16 @@ def run_cfg(chk, facts, cfg):
                        'tags %r' % ({k: show_val(v) for k, v in tags.items()},), where)
         except Unsupported as e:
             chk.ob('%s:hash:analysable%s' % (PID, sfx), 'effects', 'hash', None, str(e), where)
+    # ------------------------------------------------------------------ D6 == (the relation Hash must agree with)
+    feq = facts.trait_method('core::cmp::PartialEq', m.path, 'eq')
+    if chk.anchor('PartialEq for Interval' + sfx, feq):
+        counts['bodies'] += 1
+
+        def sem_eq(kinds, env):
+            return kinds[0] == kinds[1] and m.denote('A', kinds[0], env) == m.denote('B', kinds[1], env)
+        table_check(chk, PID, facts, m, feq, 'eq' + sfx, ['A', 'B'], [], sem_eq)
     if cfg == 'default':
         chk.floor('fallible-constructors', counts['fallible'], 4)
         chk.floor('bodies', counts['bodies'] + nconv, 43)
     chk.rules.append('E5-table (constructors, accessors, conversions), who-may-construct, compose (round trips), effects (Hash)')
-    chk.notes.append('derived PartialEq (same kind and equal bounds only) is decided under C15:eq')
     chk.notes.append('Interval::new(NaN, x) is accepted while try_from((NaN, x)) is rejected: outside the quantifier (ordered element types)')
